@@ -1,9 +1,229 @@
 import SasLexer.Spec.Basic
-/-! # C07 — dump-level specification (STUB, being written) -/
+import SasLexer.Chars
+/-!
+# C07 — string payloads hold the unquoted value and partition the literal buffer
+(dump-level specification)
+
+Every token that can carry a string payload belongs to one of four *families*; the family
+fixes the token's **content** (the part of its raw text that is quoted text) and the
+**value** (the content with SAS quoting undone):
+
+* **quoted literal** — types `StringLiteral`, `BitTesting/Date/DateTime/Name/Time/HexString
+  Literal`; raw text `q … q suffix` with `q` = `'` or `"` (the closing quote is missing in an
+  unterminated literal, which runs to the end of the token).  Content = the characters
+  between the quotes; value = content with every doubled `qq` collapsed to `q`.
+* **hex literal** — a quoted literal of type `HexStringLiteral` whose content, commas
+  ignored, consists solely of pairs of hex digits: value = the bytes as characters U+00XX
+  (Latin-1).  A `HexStringLiteral` whose content is not of that form is an ordinary quoted
+  literal (`InvalidHexStringConstant` is reported for it; that is not judged here).
+* **string-expression text** — `StringExprText`, and a `StringExprEnd` that is not the
+  closing quote `"` (the unterminated tail of a string expression, DESIGN §7.1): content =
+  the whole raw text; value = content with `""` collapsed to `"`.  (The closing-quote
+  `StringExprEnd` `"` has empty content.)
+* **`%str`/`%nrstr` text** — a `MacroString` token that sits between the HIDDEN `LPAREN` of a
+  `%str`/`%nrstr` call and its matching HIDDEN `RPAREN` (`StrPos`, `strPositions`): content =
+  the whole raw text; value = content with `%'`, `%"`, `%%`, `%(`, `%)` replaced by their second
+  character (left to right).  Two refinements, both on the weak side:
+  - HIDDEN parentheses occur only around `%str`/`%nrstr` arguments (DESIGN §7.1, channel
+    partition), so every HIDDEN `LPAREN` is taken to open such a call; the keyword token need
+    not be adjacent (after `%do %nrstr(…` other tokens intervene on the pinned tree).
+  - A `MacroString` *without* payload is only required to be escape-free when it is `%str`
+    text proper: the innermost open bracket token (`LPAREN`, `StringExprStart`) is the HIDDEN
+    `LPAREN` itself, and the token is not an operand of a macro statement nested in the call
+    (`%str(%let a=b%%c;)`, `%str(%put %);)`: between a statement keyword and its `SEMI` the text
+    is macro-statement text, where `%` quotes nothing).  A `MacroString` anywhere inside the
+    call that *carries* a payload is always judged as `%str` text.
+
+Clauses
+* `payload-text`: a family token with payload `StringLiteral a b` ⇒ `lits[a..b] = value`.
+* `no-payload-means-nothing-to-unquote`: a family token without payload ⇒ `value = content`
+  (for a hex literal with non-empty content this says: the content is *not* well-formed
+  hex, since a decoded value is shorter than its content; for texts without escapes
+  `value = content` holds trivially).
+* `ranges-valid-ordered-cover`: the string payload ranges in token order are valid slices of
+  `lits`, `a ≤ b`, the first starts at 0, each starts where the previous one ended, the last
+  ends at the end of `lits` (no range ⇒ `lits` is empty).
+* `only-string-types-carry-str-payload`: a `StringLiteral a b` payload occurs only on
+  tokens of the four families.
+-/
 namespace SasLexer
 namespace Spec
+namespace StrLit
 
-def C07 (_s : List Char) (_d : Dump) : Verdict := ["unimplemented"]
+/-- collapse doubled `q` to a single `q` (left to right) -/
+def collapse (q : Char) : List Char → List Char
+  | a :: b :: r => if a == q && b == q then q :: collapse q r else a :: collapse q (b :: r)
+  | l => l
+
+/-- characters that `%` quotes inside `%str`/`%nrstr` -/
+def isPercentQuotable (c : Char) : Bool :=
+  c == '\'' || c == '"' || c == '%' || c == '(' || c == ')'
+
+/-- `%c` → `c` for the quotable `c` (left to right) -/
+def unPercent : List Char → List Char
+  | a :: b :: r =>
+    if a == '%' && isPercentQuotable b then b :: unPercent r else a :: unPercent (b :: r)
+  | l => l
+
+/-- the text after the opening quote `q`: the content up to (excluding) the first `q` that is
+not doubled, or everything if there is none -/
+def quotedContent (q : Char) : List Char → List Char
+  | [] => []
+  | [a] => if a == q then [] else [a]
+  | a :: b :: r =>
+    if a == q then (if b == q then q :: q :: quotedContent q r else [])
+    else a :: quotedContent q (b :: r)
+
+def hexNibble? (c : Char) : Option Nat :=
+  if isAsciiDigit c then some (c.toNat - '0'.toNat)
+  else if 'a' ≤ c && c ≤ 'f' then some (c.toNat - 'a'.toNat + 10)
+  else if 'A' ≤ c && c ≤ 'F' then some (c.toNat - 'A'.toNat + 10)
+  else none
+
+/-- pairs of hex digits → the bytes as characters U+00XX; `none` if anything else occurs -/
+def hexPairs? : List Char → Option (List Char)
+  | [] => some []
+  | a :: b :: r =>
+    match hexNibble? a, hexNibble? b, hexPairs? r with
+    | some x, some y, some t => some (Char.ofNat (16 * x + y) :: t)
+    | _, _, _ => none
+  | [_] => none
+
+/-- value of a hex string literal's content (commas ignored), if it is well-formed -/
+def hexDecode? (content : List Char) : Option (List Char) := hexPairs? (content.filter (· != ','))
+
+def isQuotedLiteralType (ty : TokenType) : Bool :=
+  ty == .StringLiteral || ty == .BitTestingLiteral || ty == .DateLiteral || ty == .DateTimeLiteral
+    || ty == .NameLiteral || ty == .TimeLiteral || ty == .HexStringLiteral
+
+/-- (content, value) of a token of one of the families; `strText` tells whether a
+`MacroString` is `%str`/`%nrstr` text -/
+def contentValue? (ty : TokenType) (strText : Bool) (text : List Char) : Option (List Char × List Char) :=
+  if isQuotedLiteralType ty then
+    match text with
+    | q :: r =>
+      if q == '\'' || q == '"' then
+        let content := quotedContent q r
+        match (if ty == .HexStringLiteral then hexDecode? content else none) with
+        | some v => some (content, v)
+        | none => some (content, collapse q content)
+      else none
+    | [] => none
+  else if ty == .StringExprText then some (text, collapse '"' text)
+  else if ty == .StringExprEnd then
+    (if text == ['"'] then some ([], []) else some (text, collapse '"' text))
+  else if ty == .MacroString && strText then some (text, unPercent text)
+  else none
+
+def strRange? : Payload → Option (Nat × Nat)
+  | .str a b => some (a, b)
+  | _ => none
+
+/-- the macro *statement* keywords (`%let`, `%put`, `%do`, `%if`, …) -/
+def isMacroStatKw (ty : TokenType) : Bool :=
+  let (lo, hi) := TokenType.macroStatRange
+  lo.toNat ≤ ty.toNat && ty.toNat ≤ hi.toNat
+
+/-- statement keywords that take no operands of their own (what follows them is ordinary
+text of the enclosing context) -/
+def isBareStatKw (ty : TokenType) : Bool :=
+  ty == .KwmThen || ty == .KwmElse || ty == .KwmInclude || ty == .KwmList
+
+/-- position of a token relative to `%str`/`%nrstr` calls -/
+structure StrPos where
+  /-- between the HIDDEN `LPAREN` of a `%str`/`%nrstr` and its matching HIDDEN `RPAREN` -/
+  inside : Bool
+  /-- moreover the innermost open bracket *token* is that HIDDEN `LPAREN` (the token is not
+  inside the parentheses of a nested call or expression, nor inside a nested string
+  expression), and the token is not an operand of a macro statement nested in the call -/
+  text : Bool
+
+/-- an open bracket token: the HIDDEN `LPAREN` of `%str`/`%nrstr` (HIDDEN parentheses occur
+only there), any other `LPAREN`, or a `StringExprStart` -/
+inductive Bracket where
+  | str | paren | dq
+  deriving DecidableEq
+
+def closesStringExpr (ty : TokenType) : Bool :=
+  ty == .StringExprEnd || ty == .BitTestingLiteralExprEnd || ty == .DateLiteralExprEnd
+    || ty == .DateTimeLiteralExprEnd || ty == .NameLiteralExprEnd || ty == .TimeLiteralExprEnd
+    || ty == .HexStringLiteralExprEnd
+
+/-- One pass over the tokens with the stack of open bracket tokens.  A frame is
+`(bracket, stat)`; `stat` = the macro statement keyword with operands (`%let`, `%put`, `%if`,
+`%do`, … — not `%then/%else/%include/%list`) that was seen last directly in this frame and
+whose statement has not ended yet; a statement ends with the next `SEMI` directly in the
+frame, `%if` also with its `%then`.  The operands of such a nested statement are
+macro-statement text, in which `%` quotes nothing; they are not `%str` text.  A HIDDEN `RPAREN`
+closes the innermost `str` frame (and whatever was left open inside it); another `RPAREN`
+resp. a string-expression end closes the innermost frame if that is a `paren` resp. `dq`. -/
+def strPositions : List TokInfo → (stack : List (Bracket × Option TokenType)) → List StrPos
+  | [], _ => []
+  | t :: r, stack =>
+    let (top, stat) := match stack with
+      | (b, st) :: _ => (some b, st)
+      | [] => (none, none)
+    let setStat (st : Option TokenType) := match stack with
+      | (b, _) :: rest => (b, st) :: rest
+      | [] => []
+    let stack' :=
+      if t.ty == .LPAREN then ((if t.chan == .HIDDEN then Bracket.str else Bracket.paren), none) :: stack
+      else if t.ty == .RPAREN then
+        (if t.chan == .HIDDEN then (stack.dropWhile (fun f => f.1 != Bracket.str)).drop 1
+         else if top == some .paren then stack.drop 1 else stack)
+      else if t.ty == .StringExprStart then (Bracket.dq, none) :: stack
+      else if closesStringExpr t.ty then (if top == some .dq then stack.drop 1 else stack)
+      else if t.ty == .SEMI then setStat none
+      else if t.ty == .KwmThen then (if stat == some .KwmIf then setStat none else stack)
+      else if isMacroStatKw t.ty && !isBareStatKw t.ty then setStat (some t.ty)
+      else stack
+    ⟨stack.any (·.1 == Bracket.str), top == some .str && stat.isNone⟩ :: strPositions r stack'
+
+/-- one token: the token, its raw text, its position relative to `%str`/`%nrstr` calls -/
+structure Item where
+  tok : TokInfo
+  text : Option (List Char)
+  pos : StrPos
+
+def items (s : List Char) (toks : List TokInfo) : List Item :=
+  let n := utf8Len s
+  let rec texts : List TokInfo → List (Option (List Char))
+    | [] => []
+    | t :: r => Lexer.sliceBytes? s t.byte (match r with | u :: _ => u.byte | [] => n) :: texts r
+  (toks.zip ((texts toks).zip (strPositions toks []))).map fun (t, x, p) => ⟨t, x, p⟩
+
+/-- (content, value) of a family token.  A `MacroString` inside a `%str`/`%nrstr`
+call that *carries* a payload is judged as `%str` text in any case (only the `%str` text
+scanner attaches payloads); one without payload is judged only when it is `%str` text
+proper (`pos.text`). -/
+def Item.contentValue? (it : Item) : Option (List Char × List Char) :=
+  let strText := if (strRange? it.tok.payload).isSome then it.pos.inside else it.pos.text
+  it.text.bind (StrLit.contentValue? it.tok.ty strText)
+
+/-- ranges start at `cur`, are ordered and adjacent, and end at `n` -/
+def adjacentFrom (n : Nat) : Nat → List (Nat × Nat) → Bool
+  | cur, [] => cur == n
+  | cur, (a, b) :: r => a == cur && a ≤ b && adjacentFrom n b r
+
+end StrLit
+
+open StrLit in
+def C07 (s : List Char) (d : Dump) : Verdict :=
+  let its := items s d.toks
+  let ranges := d.toks.filterMap fun t => strRange? t.payload
+  clause "payload-text" (its.all fun it =>
+      match strRange? it.tok.payload, it.contentValue? with
+      | some (a, b), some (_, value) => Lexer.sliceBytes? d.lits a b == some value
+      | _, _ => true)
+  ++ clause "no-payload-means-nothing-to-unquote" (its.all fun it =>
+      match strRange? it.tok.payload, it.contentValue? with
+      | none, some (content, value) => value == content
+      | _, _ => true)
+  ++ clause "ranges-valid-ordered-cover"
+      ((ranges.all fun (a, b) => (Lexer.sliceBytes? d.lits a b).isSome)
+        && adjacentFrom (utf8Len d.lits) 0 ranges)
+  ++ clause "only-string-types-carry-str-payload" (its.all fun it =>
+      (strRange? it.tok.payload).isNone || it.contentValue?.isSome)
 
 end Spec
 end SasLexer
